@@ -17,6 +17,8 @@ void sched_point(const char* label);
 // property-level oracle failure detected by the scenario: recorded in the verdict
 void sched_fail(const char* fmt, ...);
 long long sched_now_ms(void);
+// ids of the managed threads that are blocked on a condition variable right now (not yet woken in any way)
+int sched_cond_blocked(int* ids, int max);
 int sched_param_int(const char* name, int dflt);   // scenario parameters given on the command line as name=value
 // hook called by nstd code compiled with -DNSTD_VERIF (Atomic.hpp, Future.cpp, Server.cpp)
 void nstd_verif_point(int kind, const volatile void* addr);
